@@ -143,7 +143,8 @@ def build_pool(seed, idx):
         c = list(h['c'])
     if not v:
         v = list(h['v'])
-    return {'v': [r.to_string() for r in v], 'c': [r.to_string() for r in c]}, {'v': v, 'c': c}, use_h
+    return ({'v': [r.to_string() for r in v], 'c': [r.to_string() for r in c]},
+            {'v': v, 'c': c, 'anno': anno, 'genome': genome}, use_h)
 
 
 def fmt_attr(key, val):
@@ -453,6 +454,145 @@ class Sim:
         self.open_pool('idx')
         self.compare_keys('idx')
 
+    # ---- the API callVariant uses: pool[transcript] ---------------------------------------------
+    @staticmethod
+    def series_digest(series):
+        def one(r):
+            if isinstance(r, circ.CircRNAModel):
+                return 'C|' + r.to_string()
+            return '|'.join([r.to_string(), str(int(r.location.start)), str(int(r.location.end)), r.location.seqname or ''])
+        return {k: sorted(one(r) for r in getattr(series, k)) for k in ('transcriptional', 'intronic', 'fusion', 'circ_rna')}
+
+    def op_getitem(self, name, k, times):
+        """pool[tx] (dedupe, conversion to transcript coordinates, breakpoint shifting) must not depend on how often
+        or in which order transcripts were asked for: every repeated call, and the first call on a freshly opened
+        pool, return the same series."""
+        if name not in self.pools or not self.scan or not self.objs or 'anno' not in self.objs:
+            return
+        pool = self.pools[name][0]
+        keys = sorted(t for t in self.scan if t in self.objs['anno'].transcripts)
+        if not keys:
+            return
+        key = keys[k % len(keys)]
+        pool.anno, pool.genome = self.objs['anno'], self.objs['genome']
+
+        def get(p):
+            try:
+                return ('ok', self.series_digest(p[key]))
+            except Exception as e:  # pylint: disable=broad-except
+                return ('exc', type(e).__name__)
+        fresh = VariantRecordPoolOnDisk(gvf_files=[f[0] for f in self.files], anno=self.objs['anno'],
+                                        genome=self.objs['genome'])
+        opener = VariantRecordPoolOnDiskOpener(fresh)
+        try:
+            opener.open()
+            base = get(fresh)
+        except ValueError:
+            return           # stale index on disk: covered by the edit operations
+        finally:
+            with contextlib.suppress(Exception):
+                opener.close()
+        self.probe('getitem')
+        if base[0] == 'ok' and base[1]['fusion']:
+            self.probe('getitem_fusion')
+        for n in range(times):
+            got = get(pool)
+            if got != base:
+                diff = [k2 for k2 in base[1] if got[0] == 'ok' and got[1][k2] != base[1][k2]] if base[0] == 'ok' else []
+                raise Violation('getitem', f'getitem:{name}:{"+".join(diff) or got[0]}',
+                                {'key': key, 'call': n + 1, 'fresh_pool': str(base)[:400], 'this_pool': str(got)[:400]})
+
+    # ---- crash during indexGVF ---------------------------------------------------------------
+    def op_crash_index(self, fi, frac, with_old_idx):
+        """indexGVF is killed at a PRNG-chosen line event (the simulated crash raises through the product's frames,
+        so what was written so far stays on disk -- the durable state), then the store is opened again: whatever
+        .idx is found must be refused or give the same record sets as a linear scan."""
+        if not self.files:
+            return
+        self.close()
+        fi %= len(self.files)
+        p = self.files[fi][0]
+        idx = Path(str(p) + '.idx')
+        if not with_old_idx and idx.exists():
+            idx.unlink()
+
+        def traced_index(path, k_fire):
+            st = {'n': 0}
+
+            class SimCrash(BaseException):
+                pass
+
+            def local(frame, event, arg):
+                if event == 'line':
+                    st['n'] += 1
+                    if k_fire is not None and st['n'] == k_fire:
+                        raise SimCrash()
+                return local
+
+            def glob(frame, event, arg):
+                return local if 'moPepGen' in frame.f_code.co_filename else None
+            prev = sys.gettrace()
+            sys.settrace(glob)
+            try:
+                self.index(path)
+            except SimCrash:
+                return st['n'], True
+            finally:
+                sys.settrace(prev)
+            return st['n'], False
+        # measure on a scratch copy so that the measuring run leaves nothing behind
+        tmp = p.with_name('measure_' + p.name)
+        shutil.copy(p, tmp)
+        try:
+            n_lines, _ = traced_index(tmp, None)
+        finally:
+            for q in (tmp, Path(str(tmp) + '.idx')):
+                if q.exists():
+                    q.unlink()
+        if int(frac * 1e5) % 3 == 0:
+            frac = 0.85 + 0.15 * frac       # a third of the crashes in the last part of the run (output phase)
+        k = max(1, min(n_lines, int(frac * n_lines) + 1))
+        _, crashed = traced_index(p, k)
+        self.probe('fault:indexgvf_crash' if crashed else 'indexgvf_crash_missed')
+        if crashed and idx.exists():
+            self.probe('idx_left_by_crashed_indexgvf')
+        self.rescan()
+        pool = VariantRecordPoolOnDisk(gvf_files=[f[0] for f in self.files])
+        opener = VariantRecordPoolOnDiskOpener(pool)
+        try:
+            opener.open()
+        except ValueError:
+            # refused: the user re-runs indexGVF
+            with contextlib.suppress(Exception):
+                opener.close()
+            self.probe('idx_after_crash_refused')
+            self.index(p)
+            self.open_pool('idx')
+            self.compare_keys('idx')
+            return
+        except Exception as e:  # pylint: disable=broad-except
+            with contextlib.suppress(Exception):
+                opener.close()
+            raise Violation('crash-index', f'crash-index:open-raised:{type(e).__name__}',
+                            {'exc': str(e)[:200], 'crash_at_line_event': k, 'of': n_lines}) from e
+        self.pools['idx'] = (pool, opener)
+        try:
+            self.compare_keys('idx')
+            for key in sorted(self.scan):
+                got = collections.Counter()
+                for ptr in pool.pointers[key]:
+                    for r in ptr.load():
+                        got[r.to_string()] += 1
+                if got != self.scan[key]:
+                    raise Violation('index-load', 'index-load:after-crash', {'key': key})
+        except Violation as v:
+            raise Violation('crash-index', f'crash-index:{v.signature}',
+                            dict(v.detail, crash_at_line_event=k, of=n_lines,
+                                 idx_bytes=idx.stat().st_size if idx.exists() else None)) from v
+        except Exception as e:  # pylint: disable=broad-except
+            raise Violation('crash-index', f'crash-index:load-raised:{type(e).__name__}',
+                            {'exc': str(e)[:200], 'crash_at_line_event': k, 'of': n_lines}) from e
+
     def apply(self, op):
         self.stats['kinds'][op[0]] = self.stats['kinds'].get(op[0], 0) + 1
         getattr(self, 'op_' + op[0])(*op[1:])
@@ -501,6 +641,14 @@ def make_machine(workdir_factory, lines, objs, trace_box, stats_box, log=None):
         @rule(kind=st.sampled_from(EDITS), fi=st.integers(0, 3), a=st.integers(0, 40), b=st.integers(0, 200))
         def edit(self, kind, fi, a, b):
             self.do(('edit', kind, fi, a, b))
+
+        @rule(name=st.sampled_from(['noidx', 'idx']), k=st.integers(0, 30), times=st.sampled_from([1, 2, 2, 3]))
+        def getitem(self, name, k, times):
+            self.do(('getitem', name, k, times))
+
+        @rule(fi=st.integers(0, 3), frac=st.floats(0, 1), with_old_idx=st.booleans())
+        def crash_index(self, fi, frac, with_old_idx):
+            self.do(('crash_index', fi, round(frac, 5), with_old_idx))
 
         def teardown(self):
             self.sim.close()
